@@ -122,7 +122,7 @@ def info(tier):
         "iteratively folded reference and pairwise; distinct = (kind, op, n, build) cells + canonical random recipes" % len(KINDS),
         "required_cells": [f"kind:{k}" for k in KINDS] + [f"op:{o}" for o in OPS] + [f"n:{n}" for n in (60, 120, 399, 400, 401, 450, 900, 5000, 20000)]
         + ["build:left-deep", "build:left-deep-fresh-leaves", "build:balanced", "build:vectorised", "obs:after-set", "obs:variables", "obs:degree", "obs:gradient", "obs:evaluate",
-           "obs:compiled-value", "obs:compiled-gradient", "obs:solve", "thresholds-lowered", "spelling:constant-minus-reduction", "spelling:quotient-of-reductions-at-zero-denominator", "spelling:heterogeneous-term-list", "spelling:constant-products-in-an-lp"] + [f"outer:{f}" for f in R.FUNCS],
+           "obs:compiled-value", "obs:compiled-gradient", "obs:solve", "thresholds-lowered", "spelling:constant-minus-reduction", "spelling:quotient-of-reductions-at-zero-denominator", "spelling:heterogeneous-term-list", "spelling:constant-products-in-an-lp", "spelling:objective-with-outside-variables-in-constraints"] + [f"outer:{f}" for f in R.FUNCS],
         "assumptions": ["reference folds the term list iteratively (no recursion limit involved)",
                         "chains draw their terms from <= 8 variables (depth is what matters)"],
     }
@@ -601,6 +601,72 @@ def run_mixed_spellings(rec, rng, k):
             rec.violation("lp-result-depends-on-the-association-of-constant-products", {"association": name, "got": got, "want": want})
 
 
+def run_outside_variable(rec, rng, k):
+    """One LP, its objective c . x written vectorised (c @ x, x.dot(c)), as a left-deep accumulation (deep for n >= 401) and balanced;
+    the constraints are built in a loop and mention two scalar variables that are NOT elements of x.  Status, objective, the variable
+    list and the values must not depend on how the objective is spelled (reference: scipy.optimize.linprog on the data)."""
+    import optyx
+    from scipy.optimize import linprog
+
+    n = [405, 40, 450, 12][k % 4]
+    rec.case({"outside-variable": k, "n": n})
+    cvec = np.array([1.0 + (i % 7) for i in range(n)])
+    idx = list(range(0, n, max(1, n // 9)))
+
+    def build(spelling):
+        x = optyx.VectorVariable("x", n, lb=0.0, ub=10.0)
+        t = optyx.Variable("t", lb=0.0, ub=5.0)
+        s_ = optyx.Variable("s", lb=0.0, ub=2.0)
+        if spelling == "c@x":
+            obj = cvec @ x
+        elif spelling == "x.dot(c)":
+            obj = x.dot(cvec)
+        elif spelling == "left-deep":
+            obj = cvec[0] * x[0]
+            for i in range(1, n):
+                obj = obj + cvec[i] * x[i]
+        else:
+            terms = [cvec[i] * x[i] for i in range(n)]
+            while len(terms) > 1:
+                terms = [terms[i] + terms[i + 1] if i + 1 < len(terms) else terms[i] for i in range(0, len(terms), 2)]
+            obj = terms[0]
+        P = optyx.Problem().maximize(obj)
+        for i in idx:
+            P.subject_to(x[i] <= t + 0.5 * s_)
+        P.subject_to(t + s_ <= 6.0)
+        return P
+
+    # reference on the data: variables [s, t, x_0 .. x_{n-1}]
+    A_ub = np.zeros((len(idx) + 1, n + 2))
+    for r_, i in enumerate(idx):
+        A_ub[r_, 2 + i], A_ub[r_, 1], A_ub[r_, 0] = 1.0, -1.0, -0.5
+    A_ub[-1, 0] = A_ub[-1, 1] = 1.0
+    b_ub = np.zeros(len(idx) + 1)
+    b_ub[-1] = 6.0
+    r = linprog(-np.concatenate([[0.0, 0.0], cvec]), A_ub=A_ub, b_ub=b_ub, bounds=[(0, 2), (0, 5)] + [(0, 10)] * n, method="highs")
+    want_obj = float(-r.fun)
+    want_names = sorted(["s", "t"] + [f"x[{i}]" for i in range(n)])
+    for spelling in ("c@x", "x.dot(c)", "left-deep", "balanced"):
+        rec.cmp(1, "spelling:objective-with-outside-variables-in-constraints")
+        try:
+            P = build(spelling)
+            with warnings.catch_warnings():
+                warnings.simplefilter("ignore")
+                sol = P.solve(method="auto" if k % 2 == 0 else "highs-ds")
+            got_names = sorted(v.name for v in P.variables)
+        except RecursionError as ex:
+            rec.violation("RecursionError:solve:outside-variable-model", {"spelling": spelling, "n": n, "error": repr(ex)[:100]})
+            continue
+        except Exception as ex:
+            rec.violation("solve-raises:" + type(ex).__name__, {"spelling": spelling, "n": n, "error": repr(ex)[:200], "model": "objective over x, loop-built constraints with t and s"})
+            continue
+        ok = sol.status.value == "optimal" and sol.objective_value is not None and abs(sol.objective_value - want_obj) <= 1e-7 * (1 + abs(want_obj))
+        if got_names != want_names or P.n_variables != n + 2:
+            rec.violation("variable-list-depends-on-the-spelling-of-the-objective", {"spelling": spelling, "n": n, "missing": sorted(set(want_names) - set(got_names))[:5], "n_variables": P.n_variables})
+        elif not ok:
+            rec.violation("result-depends-on-the-spelling-of-the-objective", {"spelling": spelling, "n": n, "status": sol.status.value, "got": sol.objective_value, "want": want_obj})
+
+
 def with_thresholds(value, fn):
     from optyx import analysis as AN
     from optyx.core import autodiff as AD
@@ -755,6 +821,10 @@ def run(ctx, rec):
         i += 1
         if ctx.mine(i):
             run_mixed_spellings(rec, rng, k_)
+    for k_ in range(8):
+        i += 1
+        if ctx.mine(i):
+            run_outside_variable(rec, rng, k_)
     lowered_thresholds(rec, rng, N_RANDOM[ctx.tier])
 
 
